@@ -46,7 +46,7 @@ def main(argv=None):
     faulthandler.enable()
     _bootstrap(a.repo, a.verif)
 
-    from rv.ctx import Ctx, Skip
+    from rv.ctx import Ctx, Skip, HarnessError
     from rv import linecov
 
     mon = importlib.import_module(f"rv.monitors.{a.prop.lower()}")
@@ -71,6 +71,9 @@ def main(argv=None):
                     mon.run_case(ctx, desc)
                 except Skip:
                     ctx.count("skipped_cases")
+                except HarnessError as e:
+                    fatal = "harness error: " + str(e)[:3000]
+                    break
                 except Exception as e:  # noqa: BLE001  harness error or unguarded in-domain exception
                     sig = ctx.exc_signature(e, "case")
                     if sig.startswith("exception.") and "@outside-inferno" in sig:
